@@ -567,4 +567,272 @@ def msgStamp (remainingNs : Int) (storedAD cd : Bool) (ttls : List Nat) : Option
 def ednsNoAD (cd reqAD clientDO : Bool) : Bool := cd || (!reqAD && !clientDO)
 def ednsAD (noad ad : Bool) : Bool := if noad ∧ ad then false else ad
 
+/-! ### Handler branches that exist twice: edns -/
+
+inductive Proto where
+  | udp | tcp | other   -- other = doh / doq
+deriving DecidableEq, Repr
+
+def MinMsgSize : Nat := 512
+def DefaultMsgSize : Nat := 1232
+def MaxMsgSize : Nat := 65535
+
+/-- the fields of `edns.ResponseWriter` both branches fill -/
+structure WriterFacts where
+  size : Nat
+  dnssecOK : Bool
+  noedns : Bool
+  nsidAsked : Bool
+  keepalive : Bool
+  noad : Bool
+  respUDPSize : Nat
+  /-- client cookie half ([] = none) -/
+  cookie : Bytes
+deriving DecidableEq, Repr
+
+inductive EdnsOut where
+  | next (w : WriterFacts)
+  | notimp
+  | badvers
+deriving DecidableEq, Repr
+
+/-- `EDNS.ServeDNS` entry test: the wire branch serves plain queries without OPT or with EDNS version 0. -/
+def ednsWireBranch (f : Facts) : Bool :=
+  (f.flags >>> 11) &&& 0xF == 0 && (f.opt.isNone || (f.opt.map (·.version)).getD 0 == 0)
+
+def protoSize (p : Proto) (size : Nat) : Nat :=
+  match p with
+  | .udp => size
+  | _ => MaxMsgSize
+
+/-- `EDNS.serveWire`: every fact from the wire-parsed OPT. -/
+def ednsWire (f : Facts) (p : Proto) : EdnsOut :=
+  let o := f.opt.getD {}
+  let noedns := f.opt.isNone
+  let size := min (max o.udpSize MinMsgSize) DefaultMsgSize
+  let size := protoSize p size
+  let size := if noedns then MinMsgSize else size
+  let cd := decide (f.flags &&& 0x0010 ≠ 0)
+  let ad := decide (f.flags &&& 0x0020 ≠ 0)
+  .next { size := size, dnssecOK := o.dnssecOK, noedns := noedns, nsidAsked := o.hasNSID,
+          keepalive := o.hasKeepalive && decide (p = .tcp), noad := cd || (!ad && !o.dnssecOK),
+          respUDPSize := DefaultMsgSize, cookie := if o.cookie.length ≥ 8 then o.cookie.take 8 else [] }
+
+/-- What the decoded request looks like to `SetEdns0` / the decoded body. -/
+structure DReq where
+  opcode : Nat
+  cd : Bool
+  ad : Bool
+  hasOPT : Bool
+  udpSize : Nat
+  version : Nat
+  dnssecOK : Bool
+  /-- payloads of the cookie options, in packet order -/
+  cookies : List Bytes
+  nsid : Bool
+  keepalive : Bool
+deriving DecidableEq, Repr
+
+/-- `dnsutil.SetEdns0`'s cookie loop: the last cookie of at least 8 octets wins, its client half is kept. -/
+def setEdns0Cookie : List Bytes → Bytes → Bytes
+  | [], acc => acc
+  | c :: t, acc => setEdns0Cookie t (if c.length ≥ 8 then c.take 8 else acc)
+
+/-- `EDNS.ServeDNS` decoded body (`SetEdns0`, BADVERS, transport sizes, AD discipline). -/
+def ednsMsg (r : DReq) (p : Proto) : EdnsOut :=
+  if r.opcode > 0 then .notimp else
+  let noedns := !r.hasOPT
+  -- SetEdns0
+  let size := if r.hasOPT then min (max r.udpSize MinMsgSize) DefaultMsgSize else DefaultMsgSize
+  let cookie := if r.hasOPT then setEdns0Cookie r.cookies [] else []
+  let nsid := r.hasOPT && r.nsid
+  let dok := r.hasOPT && r.dnssecOK
+  if r.hasOPT ∧ r.version ≠ 0 then .badvers else
+  let size := protoSize p size
+  let size := if noedns then MinMsgSize else size
+  .next { size := size, dnssecOK := dok, noedns := noedns, nsidAsked := nsid,
+          keepalive := (r.hasOPT && r.keepalive) && decide (p = .tcp), noad := r.cd || (!r.ad && !dok),
+          respUDPSize := DefaultMsgSize, cookie := cookie }
+
+def cookiePayloads : List SOption → List Bytes
+  | [] => []
+  | o :: t => if o.code = 10 then o.data :: cookiePayloads t else cookiePayloads t
+
+/-- the decoded request of a specification message (what the DNS library hands the handler) -/
+def dreqOf (m : SMsg) : DReq :=
+  match m.opt with
+  | none => { opcode := (m.flags >>> 11) % 2 ^ 4, cd := m.flags.testBit 4, ad := m.flags.testBit 5, hasOPT := false,
+              udpSize := 0, version := 0, dnssecOK := false, cookies := [], nsid := false, keepalive := false }
+  | some o => { opcode := (m.flags >>> 11) % 2 ^ 4, cd := m.flags.testBit 4, ad := m.flags.testBit 5, hasOPT := true,
+                udpSize := o.udpSize, version := o.version, dnssecOK := decide (o.zflags / 2 ^ 15 % 2 = 1),
+                cookies := cookiePayloads o.options, nsid := o.options.any (fun x => x.code == 3),
+                keepalive := o.options.any (fun x => x.code == 11) }
+
+/-- the same, read back from strict-path facts (at most one cookie, see `parseWire_refines_spec`) -/
+def dreqOfFacts (f : Facts) : DReq :=
+  let o := f.opt.getD {}
+  { opcode := (f.flags >>> 11) % 2 ^ 4, cd := f.flags.testBit 4, ad := f.flags.testBit 5, hasOPT := f.opt.isSome,
+    udpSize := o.udpSize, version := o.version, dnssecOK := o.dnssecOK,
+    cookies := if o.cookie = [] then [] else [o.cookie], nsid := o.hasNSID, keepalive := o.hasKeepalive }
+
+/-- `EDNS.ServeDNS` for a wire-born request. -/
+def ednsServeWireBorn (f : Facts) (p : Proto) : EdnsOut :=
+  if ednsWireBranch f then ednsWire f p else ednsMsg (dreqOfFacts f) p
+
+/-! ### ratelimit -/
+
+inductive Half where
+  | none | good | bad
+deriving DecidableEq, Repr
+
+structure RLState where
+  /-- the client cookie whose server cookie the limiter remembers -/
+  cached : Option Nat := none
+  tokens : Nat := 0
+deriving DecidableEq, Repr
+
+structure RLIn where
+  udp : Bool
+  /-- cookie option: client cookie id and which server half came with it -/
+  ck : Option (Nat × Half)
+  replay : Bool := false
+  /-- rate 0, internal writer or loopback source: the limiter does not apply -/
+  exempt : Bool := false
+deriving DecidableEq, Repr
+
+inductive RLOut where
+  | next | drop | badcookie
+deriving DecidableEq, Repr
+
+/-- `l.rl.Allow()` -/
+def rlAllow (s : RLState) : Option RLState :=
+  if s.tokens = 0 then none else some { s with tokens := s.tokens - 1 }
+
+/-- the full cookie sent equals the remembered server cookie -/
+def cookieMatches (s : RLState) (cid : Nat) (h : Half) : Bool :=
+  s.cached == some cid && h == Half.good
+
+/-- `RateLimit.ServeDNS`, decoded body. -/
+def rlMsg (s : RLState) (i : RLIn) : RLState × RLOut :=
+  if i.replay then (s, .next) else
+  if i.exempt then (s, .next) else
+  match i.ck with
+  | some (cid, h) =>
+    if s.cached.isNone || cookieMatches s cid h then ({ s with cached := some cid }, .next)
+    else if i.udp then
+      match rlAllow s with
+      | none => (s, .drop)
+      | some s' => ({ s' with cached := some cid }, .badcookie)
+    else
+      -- falls out of the option loop to the plain limiter; the server cookie is stored after Next
+      match rlAllow s with
+      | none => (s, .drop)
+      | some s' => ({ s' with cached := some cid }, .next)
+  | none =>
+    match rlAllow s with
+    | none => (s, .drop)
+    | some s' => (s', .next)
+
+/-- `RateLimit.serveWire` (behind the same replay / exemption gates of `ServeDNS`). -/
+def rlWire (s : RLState) (i : RLIn) : RLState × RLOut :=
+  if i.replay then (s, .next) else
+  if i.exempt then (s, .next) else
+  match i.ck with
+  | some (cid, h) =>
+    if s.cached.isNone || cookieMatches s cid h then ({ s with cached := some cid }, .next)
+    else if i.udp then
+      -- materializes for the BADCOOKIE reply
+      match rlAllow s with
+      | none => (s, .drop)
+      | some s' => ({ s' with cached := some cid }, .badcookie)
+    else
+      match rlAllow s with
+      | none => (s, .drop)
+      | some s' => ({ s' with cached := some cid }, .next)
+  | none =>
+    match rlAllow s with
+    | none => (s, .drop)
+    | some s' => (s', .next)
+
+def rlRun (step : RLState → RLIn → RLState × RLOut) : RLState → List RLIn → RLState × List RLOut
+  | s, [] => (s, [])
+  | s, i :: t =>
+    let (s', o) := step s i
+    let (s'', os) := rlRun step s' t
+    (s'', o :: os)
+
+/-! ### as112 (names = lower-cased labels, most specific first) -/
+
+inductive ASOut where
+  | next
+  /-- authoritative reply: NOERROR iff the name is the zone apex -/
+  | reply (whole : Bool) (zone : List String)
+deriving DecidableEq, Repr
+
+/-- first suffix of the name (from index `i` on) that is a configured zone -/
+def findZone (zones : List (List String)) : Nat → List String → Option (Nat × List String)
+  | _, [] => none
+  | i, l@(_ :: t) => if l ∈ zones then some (i, l) else findZone zones (i + 1) t
+
+/-- the decoded body's string-level pre-check `EqualFold(name[n-5:], "arpa.")` on the last label -/
+def endsArpa (s : String) : Bool := s.toList.reverse.take 4 == ['a', 'p', 'r', 'a']
+
+/-- `AS112.ServeDNS` decoded body with `AS112.Match` (DS strips the owner label). -/
+def asMsg (zones : List (List String)) (labels : List String) (qtype : Nat) : ASOut :=
+  -- the string-level pre-check: the name ends in "arpa."
+  if !(endsArpa (labels.getLast?.getD "")) then .next else
+  let probe : Option (List String) :=
+    if qtype = 43 then (match labels with | [] => none | [_] => none | _ :: t => some t) else some labels
+  match probe with
+  | none => .next
+  | some ls =>
+    match findZone zones 0 ls with
+    | none => .next
+    | some (_, z) => .reply (z == labels) z
+
+/-- `AS112.serveWire` behind `wireNameHasArpaSuffix`. -/
+def asWire (zones : List (List String)) (labels : List String) (qtype : Nat) : ASOut :=
+  if labels.getLast? ≠ some "arpa" then .next else
+  let start := if qtype = 43 then 1 else 0
+  if qtype = 43 ∧ labels.length < 2 then .next else
+  match findZone zones start (labels.drop start) with
+  | none => .next
+  | some (i, z) => .reply (i == 0 && start == 0) z
+
+/-! ### header word of a byte-served reply vs the decoded reply -/
+
+/-- `serveWireIntoRequest`: `ApplyReply` on the stored word, AD cleared for a
+CD request; second component = `WireInfo.AuthenticatedData`. -/
+def wireHitFlags (stored : Nat) (rd cd : Bool) : Nat × Bool :=
+  let w := applyReply stored 0 rd cd
+  let ad := decide (stored &&& FlagAD ≠ 0)
+  if cd && ad then (clearAD w, false) else (w, ad)
+
+/-- `nxDomainCutEntry.serveWireInto` over the (all-zero) template header. -/
+def wireCutFlags (rd cd : Bool) : Nat × Bool :=
+  (setAD (setRA (setRcode (applyReply 0 0 rd cd) 3)), true)
+
+/-- `serveFailureFromWire`: the header is zeroed in the lease first, whatever the slab held. -/
+def wireFailureFlags (staleLeaseWord : Nat) (rd cd : Bool) : Nat × Bool :=
+  let zeroed := staleLeaseWord * 0
+  (setRA (setRcode (applyReply zeroed 0 rd cd) 2), false)
+
+/-- `edns.ResponseWriter.WriteWire`: `if w.noad && info.AuthenticatedData { ClearAD }`. -/
+def ednsWriteWireFlags (noad : Bool) (p : Nat × Bool) : Nat :=
+  if noad && p.2 then clearAD p.1 else p.1
+
+/-- `ToMsg` (SetReply, AA off, AD off for CD) then `edns.WriteMsg` (`noad`). -/
+def msgHitFlags (stored : Nat) (rd cd noad : Bool) : Nat :=
+  ({ setReplyMsg (Hdr.decode stored) 0 rd cd with ad := (Hdr.decode stored).ad && !cd && !noad } : Hdr).encode
+
+/-- `nxDomainCutEntry.response` then `edns.WriteMsg`. -/
+def msgCutFlags (rd noad : Bool) : Nat :=
+  ({ qr := true, opcode := 0, aa := false, tc := false, rd := rd, ra := true, z := false, ad := !noad, cd := false,
+     rcode := 3 } : Hdr).encode
+
+/-- `FailureHit.Response` then `edns.WriteMsg`. -/
+def msgFailureFlags (rd cd : Bool) : Nat :=
+  ({ qr := true, opcode := 0, aa := false, tc := false, rd := rd, ra := true, z := false, ad := false, cd := cd,
+     rcode := 2 } : Hdr).encode
+
 end SdnsVerif.Model.WirePath
